@@ -26,7 +26,7 @@ HARNESS = os.path.join(VERIF, "harness")
 CACHE = os.environ.get("XMP_VERIF_CACHE", "/var/tmp/xmpverif")
 LOCKS = "/var/tmp/xmpverif-locks"        # package-wide locks (lake), independent of the cache dir
 OUT = os.path.join(VERIF, "out")            # replays, scratch case files (git-ignored)
-EVID = os.path.join(VERIF, "evidence")
+EVID = os.environ.get("XMP_VERIF_EVID", os.path.join(VERIF, "evidence"))   # seedtest points this at a scratch dir
 GUARD = "LIBXMP_VERIF"
 NCPU = os.cpu_count() or 4
 
